@@ -304,10 +304,33 @@ def main(argv=None):
     if nshards == 1:
         outs = [run_shard(work[0])]
     else:
+        # a worker that dies (e.g. out of memory inside a mutated algorithm) or never returns must not hang the
+        # check: both are harness-level outcomes (exit 2), never a violation
         import multiprocessing as mp
-        mpctx = mp.get_context("spawn")
-        with mpctx.Pool(nshards) as pool:
-            outs = pool.map(run_shard, work, chunksize=1)
+        from concurrent.futures import ProcessPoolExecutor, wait
+        from concurrent.futures.process import BrokenProcessPool
+        budget = float(os.environ.get("VERIF_WALL_BUDGET_S", "1500" if a.tier == "quick" else "21600"))
+        ex = ProcessPoolExecutor(max_workers=nshards, mp_context=mp.get_context("spawn"))
+        futs = [ex.submit(run_shard, w) for w in work]
+        done, pending = wait(futs, timeout=budget)
+        outs = []
+        for f in futs:
+            if f in pending:
+                outs.append({"shard": -1, "violations": [], "harness_error": f"shard did not finish within {budget:.0f} s (inconclusive)"})
+                continue
+            try:
+                outs.append(f.result())
+            except BrokenProcessPool:
+                outs.append({"shard": -1, "violations": [], "harness_error": "a worker process died (killed / out of memory): inconclusive"})
+            except Exception as e:  # noqa
+                outs.append({"shard": -1, "violations": [], "harness_error": f"worker failed: {type(e).__name__}: {e}"})
+        if pending:
+            for p_ in list(getattr(ex, "_processes", {}).values()):
+                try:
+                    p_.kill()
+                except Exception:
+                    pass
+        ex.shutdown(wait=False, cancel_futures=True)
     m = merge(outs)
     wall = time.time() - t0
 
